@@ -58,7 +58,7 @@ func isStoreVal(target, val string) func(Site) bool {
 }
 
 func propC04(c *Ctx) {
-	c.Explanation = "Decides structural necessary conditions of window/MSS discipline for all inputs: (N1) the window field written by sendTCP is a lossless conversion: the receive window is clamped to 0xffff before uint16() (interval analysis); (N2) the advertised right edge rcvAcc moves only forward: its only store outside the constructor is guarded by rcvAcc.LessThan(new) and stores exactly that new value, and the advertisement is (rcvAcc-rcvNxt) >> rcvWndScale; (N3) maxPayloadSize only shrinks, is at least 1, and is computed as MTU - TCP header - the largest option block the stack can send (timestamps and maximum SACK blocks) - so a full segment with options never exceeds the MTU; (N4) the peer's window is scaled before the sender sees it: in handleSegments `s.window <<= sndWndScale` precedes both handleRcvdSegment calls on the ACK branch, and the sender copies seg.window into sndWnd; (N5) sendData sends data only when the segment starts before sndUna+sndWnd, and splits exactly at min(room in the window, maxPayloadSize) (site table shared with C01); (N6) acceptable() computes RFC 793's acceptability table over sequence-space primitives; in-window data is delivered (C01/R3); zero-window detection compares (rcvBufSize-rcvBufUsed)>>scale with 0. (N7) zero-window handling: the immediate window update after the application reads is sent exactly when the SCALED window last advertised ((rcvAcc-rcvNxt) >> rcvWndScale, the expression getSendParams returns) was zero; Read notifies the worker exactly when the scaled free space was zero before the bytes left the buffer and is non-zero afterwards; the worker calls nonZeroWindow on that notification bit. NOT decided: the inequality 'bytes in flight <= offered window' over histories of ACKs (needs the sizes of heap-allocated views across calls); the arithmetic of the primitives is C14."
+	c.Explanation = "Decides structural necessary conditions of window/MSS discipline for all inputs: (N1) the window field written by sendTCP is a lossless conversion: the receive window is clamped to 0xffff before uint16() (interval analysis); (N2) the advertised right edge rcvAcc moves only forward: its only store outside the constructor is guarded by rcvAcc.LessThan(new) and stores exactly that new value, and the advertisement is (rcvAcc-rcvNxt) >> rcvWndScale; (N3) maxPayloadSize only shrinks, is at least 1, and is computed as MTU - TCP header - the largest option block the stack can send (timestamps and maximum SACK blocks) - so a full segment with options never exceeds the MTU; (N4) the peer's window is scaled before the sender sees it: in handleSegments `s.window <<= sndWndScale` precedes both handleRcvdSegment calls on the ACK branch, and the sender copies seg.window into sndWnd; (N5) sendData sends data only when the segment starts before sndUna+sndWnd, and splits exactly at min(room in the window, maxPayloadSize) (site table shared with C01); (N6) acceptable() computes RFC 793's acceptability table over sequence-space primitives; in-window data is delivered (C01/R3); zero-window detection compares (rcvBufSize-rcvBufUsed)>>scale with 0. (N8) the receive window scale in force is 0 exactly when the peer's SYN carried no window-scale option (recorded as -1) and the announced shift otherwise - a peer shift of 0 still enables scaling - and the established receiver takes exactly that value. (N7) zero-window handling: the immediate window update after the application reads is sent exactly when the SCALED window last advertised ((rcvAcc-rcvNxt) >> rcvWndScale, the expression getSendParams returns) was zero; Read notifies the worker exactly when the scaled free space was zero before the bytes left the buffer and is non-zero afterwards; the worker calls nonZeroWindow on that notification bit. NOT decided: the inequality 'bytes in flight <= offered window' over histories of ACKs (needs the sizes of heap-allocated views across calls); the arithmetic of the primitives is C14."
 	an := NewAbsint(c.P)
 	n1 := c.Rule("N1", "K8 narrowing", "window field conversion is lossless", 1)
 	if fn := c.Fn(n1, "tcp.sendTCP"); fn != nil {
@@ -213,6 +213,28 @@ func propC04(c *Ctx) {
 		c.Check(k.ExactString() == "1", n7, "const:tcp.notifyNonZeroReceiveWindow", "", "bit 1, the bit tested in the main loop", "notifyNonZeroReceiveWindow = "+k.ExactString()+" but the main loop tests bit 1")
 	}
 
+
+	n8 := c.Rule("N8", "K7 exact-guard site tables + K3 closed call sites", "window-scale negotiation: own scale used only if the peer offered one (any value, including 0)", 8)
+	if fn := c.Fn(n8, "(*tcp.handshake).effectiveRcvWndScale"); fn != nil {
+		c.CheckSites(n8, fn, []SiteSpec{
+			{Kind: "return", Args: []string{"0"}, Guards: []string{"($0.sndWndScale < 0)"}, Exact: true, N: 1, Why: "no window-scale option from the peer (recorded as -1): our window is advertised unscaled (RFC 7323 2.2: both sides must send the option)"},
+			{Kind: "return", Args: []string{"$0.rcvWndScale"}, Guards: []string{"!($0.sndWndScale < 0)"}, Exact: true, N: 1, Why: "the peer sent the option - with ANY shift, 0 included - so the shift announced in our SYN applies to every window we advertise"},
+		})
+	}
+	c.CheckCallers(n8, []string{"(*tcp.handshake).effectiveRcvWndScale", "tcp.newReceiver"}, []CallerSpec{
+		{Fn: "(*tcp.endpoint).protocolMainLoop", Target: "(*tcp.handshake).effectiveRcvWndScale", Args: []string{"&new(tcp.handshake)"}, Why: "the established receiver takes its scale from the handshake"},
+		{Fn: "(*tcp.endpoint).protocolMainLoop", Target: "tcp.newReceiver", Args: []string{"$0", "(new(tcp.handshake).ackNum@u - 1)", "new(tcp.handshake).rcvWnd@u", "(*tcp.handshake).effectiveRcvWndScale(&new(tcp.handshake))"}, Why: "receiver scale = the effective scale, nothing else"},
+		{Fn: "(*tcp.handshake).synSentState", Target: "(*tcp.handshake).effectiveRcvWndScale", Args: []string{"$0"}, Why: "the ACK completing an active open already carries the scaled window"},
+		{Fn: "(*tcp.listenContext).createEndpointAndPerformHandshake", Target: "(*tcp.handshake).effectiveRcvWndScale", Args: []string{"&new(tcp.handshake)"}, Why: "accepted connections: receiver scale set after the handshake"},
+		{Fn: "(*tcp.listenContext).createConnectedEndpoint", Target: "tcp.newReceiver", Args: []string{"tcp.newEndpoint($0.stack, phi{$0.netProto | $1.route.NetProto}, nil)", "$3", "$0.rcvWnd", "0"}, Why: "provisional receiver with scale 0 until the handshake finished (overwritten by the effective scale)"},
+	})
+	for _, v := range []struct{ fn, val string }{{"(*tcp.handshake).resetToSynRcvd", "$3.WS"}, {"(*tcp.handshake).synSentState", "new(header.TCPSynOptions).WS@3"}} {
+		if fn := c.Fn(n8, v.fn); fn != nil {
+			c.CheckSitesPresent(n8, fn, []SiteSpec{{Kind: "store", Target: "tcp.handshake.sndWndScale", Args: []string{"$0", v.val}, N: 1, Why: "the peer's scale is exactly the WS value parsed from its SYN (-1 when the option is absent)"}})
+		}
+	}
+	c.OnlyIn(n8, "store to handshake.sndWndScale", c.FieldStores("tcp.handshake", "sndWndScale"), "(*tcp.handshake).resetToSynRcvd", "(*tcp.handshake).synSentState")
+
 }
 
 func propC05(c *Ctx) {
@@ -291,6 +313,7 @@ func propC05(c *Ctx) {
 			{Kind: "call", Target: "iface:tcp.congestionControl.HandleNDupAcks", Args: []string{"$0.cc"}, Guards: third, Exact: true, N: 1, Why: "on the third duplicate (and not for data already retransmitted in an earlier recovery) ssthresh is reduced"},
 			{Kind: "call", Target: "(*tcp.sender).enterFastRecovery", Args: []string{"$0"}, Guards: third, Exact: true, N: 1, Why: "... and fast recovery is entered"},
 			{Kind: "store", Target: "tcp.sender.dupAckCount", Args: []string{"$0", "0"}, N: 4, Why: "the counter restarts when it is consumed or when the ACK is not a duplicate"},
+			{Kind: "store", Target: "tcp.fastRecovery.first", Args: []string{"$0.fr", "$1.ackNumber"}, Guards: append(append([]string{}, rec...), "!($0.fr.first == $1.ackNumber)"), Exact: true, N: 1, Why: "a partial ACK during recovery moves the recovery point to the NEW acknowledgement number (sndUna is still the old one here: handleRcvdSegment advances it later), so further duplicates of this ACK are counted as duplicates, not as partial ACKs"},
 			{Kind: "call", Target: "(*tcp.sender).leaveFastRecovery", Args: []string{"$0"}, Guards: []string{"$0.fr.active", inr, "seqnum.Value.LessThan($0.fr.last, $1.ackNumber)"}, Exact: true, N: 1, Why: "recovery ends when everything outstanding at its start is acknowledged"},
 			{Kind: "store", Target: "tcp.sender.sndCwnd", Args: []string{"$0", "($0.sndCwnd + 1)"}, Guards: append(append([]string{}, rec...), "($0.fr.first == $1.ackNumber)", "($0.sndCwnd < $0.fr.maxCwnd)"), Exact: true, N: 1, Why: "window inflation by one segment per further duplicate ACK, bounded by maxCwnd"},
 		})
@@ -321,6 +344,10 @@ func propC05(c *Ctx) {
 	if fn := c.Fn(l5, "(*tcp.sender).enterFastRecovery"); fn != nil {
 		c.CheckSitesPresent(l5, fn, []SiteSpec{
 			{Kind: "store", Target: "tcp.sender.sndCwnd", Args: []string{"$0", "($0.sndSsthresh + 3)"}, Guards: []string{}, Exact: true, N: 1, Why: "cwnd = ssthresh + 3 (RFC 5681 3.2 step 3)"},
+			{Kind: "store", Target: "tcp.fastRecovery.active", Args: []string{"$0.fr", "true"}, Guards: []string{}, Exact: true, N: 1, Why: "recovery starts"},
+			{Kind: "store", Target: "tcp.fastRecovery.first", Args: []string{"$0.fr", "$0.sndUna"}, Guards: []string{}, Exact: true, N: 1, Why: "recovery point = first unacknowledged byte"},
+			{Kind: "store", Target: "tcp.fastRecovery.last", Args: []string{"$0.fr", "($0.sndNxt - 1)"}, Guards: []string{}, Exact: true, N: 1, Why: "recovery ends when everything sent so far is acknowledged"},
+			{Kind: "store", Target: "tcp.fastRecovery.maxCwnd", Args: []string{"$0.fr", "($0.outstanding + $0.sndCwnd@1)"}, Guards: []string{}, Exact: true, N: 1, Why: "inflation bound"},
 		})
 	}
 	if fn := c.Fn(l5, "(*tcp.sender).leaveFastRecovery"); fn != nil {
@@ -328,6 +355,8 @@ func propC05(c *Ctx) {
 			{Kind: "store", Target: "tcp.sender.sndCwnd", Args: []string{"$0", "$0.sndSsthresh"}, Guards: []string{}, Exact: true, N: 1, Why: "deflate: cwnd = ssthresh"},
 		})
 	}
+
+	c.OnlyIn(l5, "store to fastRecovery.first", c.FieldStores("tcp.fastRecovery", "first"), "(*tcp.sender).checkDuplicateAck", "(*tcp.sender).enterFastRecovery", "(*tcp.sender).leaveFastRecovery")
 
 	l6 := c.Rule("L6", "typestate: K3 confinement + K7 exact-guard site tables", "lazy retransmission timer state machine", 14)
 	tm := "(*tcp.timer)."
